@@ -3,8 +3,10 @@
    rules accept, trailing commas in lists, dictionaries and argument lists -- parses to what the tokens denote. *)
 From Coq Require Import NArith ZArith List Bool Lia.
 From MP Require Import Model.Lexer Gen.GenGrammar Model.Parser Model.Serial Proofs.LexProofs Proofs.SerialProofs.
-From MP Require Import Proofs.LexSerial Proofs.Layout.
-From MP Require Import Proofs.LrComplete Proofs.Surface.
+From MP Require Import Proofs.LexSerial.
+From MP Require Import Proofs.Layout.
+From MP Require Import Proofs.LrComplete.
+From MP Require Import Proofs.Surface.
 Import ListNotations.
 Close Scope string_scope.
 Open Scope N_scope.
@@ -56,11 +58,57 @@ Proof. unfold int_lexeme. destruct (scan_int lx) as [[a r]|] eqn:E; [|discrimina
   unfold lex1. cbn [app span]. rewrite F1. unfold scan_id. rewrite F2.
   unfold scan_float, scan_int. change (c :: t ++ rest) with ((c :: t) ++ rest). rewrite OS. unfold digits1. rewrite D2, (sstop_dot rest Hs), SD. reflexivity. Qed.
 
+
+(* ---- PLAIN_STRING lexemes and the rules tried before that one ---- *)
+Lemma scan_float_none_app s b : s <> [] -> scan_float s = None -> fstop b -> scan_float (s ++ b) = None.
+Proof. intros Hs H Hb. unfold scan_float in *. rewrite (opt_sign_app s b Hs). destruct (opt_sign s) as [sg s1]. cbn [fst snd].
+  destruct (digits1 s1) as [[d rest]|] eqn:D.
+  - rewrite (digits1_app s1 d rest b D Hb). destruct (starts_dot rest) as [r1|] eqn:S.
+    + destruct (span is_digit r1) as [f r']. destruct (scan_exp r'). discriminate.
+    + rewrite (starts_dot_none_app rest b S Hb). reflexivity.
+  - rewrite (digits1_none_app s1 b D Hb). destruct (starts_dot s1) as [r1|] eqn:S.
+    + rewrite (starts_dot_app s1 r1 b S). destruct (digits1 r1) as [[f r']|] eqn:F; [destruct (scan_exp r'); discriminate|].
+      rewrite (digits1_none_app r1 b F Hb). reflexivity.
+    + rewrite (starts_dot_none_app s1 b S Hb). reflexivity.
+Qed.
+Lemma scan_int_none_app s b : s <> [] -> scan_int s = None -> fstop b -> scan_int (s ++ b) = None.
+Proof. intros Hs H Hb. unfold scan_int in *. rewrite (opt_sign_app s b Hs). destruct (opt_sign s) as [sg s1]. cbn [fst snd].
+  destruct (digits1 s1) as [[d rest]|] eqn:D; [discriminate|]. rewrite (digits1_none_app s1 b D Hb). reflexivity. Qed.
+Definition plain_lexeme (lx : text) : bool :=
+  match lx with
+  | c :: _ => negb (is_ign c) && negb (is_alpha_ c) && negb (is_nl c) && negb ((c =? 34) || (c =? 39)) && forallb is_plainc lx &&
+              match scan_float lx with None => true | _ => false end && match scan_int lx with None => true | _ => false end
+  | [] => false
+  end.
+Lemma delim_fstop b : head_fails is_plainc b -> fstop b.
+Proof. destruct b as [|c b]; [trivial|]. unfold fstop, head_fails, is_plainc, is_delim. cbn [existsb]. intros H. apply negb_false_iff in H.
+  repeat (apply orb_true_iff in H as [H|H]; [apply N.eqb_eq in H; subst; reflexivity|]). discriminate. Qed.
+Lemma delim_plain lx : plain_lexeme lx = true -> delimited (KPLAIN, lx).
+Proof. unfold plain_lexeme. destruct lx as [|c t]; [discriminate|]. intros W rest Hr. cbn [good_follow fst snd] in *.
+  repeat (apply andb_true_iff in W as [W ?]).
+  repeat match goal with H : negb _ = true |- _ => apply negb_true_iff in H end.
+  destruct (scan_float (c :: t)) eqn:SF; [discriminate|]. destruct (scan_int (c :: t)) eqn:SI; [discriminate|].
+  pose proof (scan_float_none_app (c :: t) rest ltac:(discriminate) SF (delim_fstop rest Hr)) as SF2.
+  pose proof (scan_int_none_app (c :: t) rest ltac:(discriminate) SI (delim_fstop rest Hr)) as SI2.
+  unfold lex1. cbn [app span]. rewrite W. unfold scan_id.
+  match goal with H : is_alpha_ c = false |- _ => rewrite H end.
+  cbn [app] in SF2, SI2. rewrite SF2, SI2. unfold scan_string.
+  match goal with H : (c =? 34) || (c =? 39) = false |- _ => rewrite H end.
+  cbn [span]. match goal with H : is_nl c = false |- _ => rewrite H end.
+  unfold scan_plain. change (c :: t ++ rest) with ((c :: t) ++ rest).
+  match goal with H : forallb is_plainc (c :: t) = true |- _ => rewrite (span_all is_plainc (c :: t) rest H Hr) end. reflexivity. Qed.
+Definition word_lex (w : xword) : bool :=
+  match w with WI lx => int_lexeme lx | WF lx _ => float_shape lx | WW lx => is_ident lx | WP lx => plain_lexeme lx end.
+Lemma word_delim w : word_lex w = true -> delimited (wk w).
+Proof. destruct w as [lx|lx pr|lx|lx]; cbn [word_lex wk]; intros W; [apply delim_intlx | apply delim_float | apply delim_ident | apply delim_plain]; exact W. Qed.
+
 (* ---- every token of a lexically well-formed surface program is delimited ---- *)
 Definition leaf_lex (a : xleaf) : bool :=
   match a with XS lx => str_lexeme lx | XI lx => int_lexeme lx | XF lx => float_shape lx | XW lx => is_ident lx end.
-Fixpoint xval_lex (v : xval) : bool := match v with XLeaf a => leaf_lex a | XList l _ => forallb xval_lex l end.
-Definition xpair_lex (p : text * xleaf) : bool := str_lexeme (fst p) && leaf_lex (snd p).
+Fixpoint xval_lex (v : xval) : bool := match v with XLeaf a => leaf_lex a | XList l _ => forallb xval_lex l | XWords ws => forallb word_lex ws end.
+Definition xpair_lex (p : xpair) : bool :=
+  match fst p with KQ lx => str_lexeme lx | KW ws => forallb word_lex ws end &&
+  match snd p with PVLeaf a => leaf_lex a | PVWords ws => forallb word_lex ws end.
 Definition xarg_lex (x : text * xarg) : bool :=
   is_ident (fst x) && match snd x with XAVal v => xval_lex v | XADict p ps _ => forallb xpair_lex (p :: ps) end.
 Definition xcmd_lex (c : xcmd) : bool := match xc_result c with Some r => is_ident r | None => true end && is_ident (xc_name c) && forallb xarg_lex (xc_args c).
@@ -71,13 +119,17 @@ Lemma tkj_delim tr ls : Forall (Forall delimited) ls -> Forall delimited (tkj tr
 Proof. intros H. unfold tkj. apply Forall_app. split; [apply tk_join_delim; exact H|]. destruct ls; [constructor|]. destruct tr; [|constructor].
   constructor; [apply delim_punct; punct | constructor]. Qed.
 Lemma xvalue_delim v : xval_lex v = true -> Forall delimited (tkx_value v).
-Proof. induction v as [a|l tr IH] using xval_ind'; cbn [xval_lex tkx_value]; intros W.
+Proof. induction v as [a|l tr IH|ws] using xval_ind'; cbn [xval_lex tkx_value]; intros W;
+  [| | rewrite Forall_map; rewrite forallb_forall in W; rewrite Forall_forall; intros w Hw; apply word_delim, W, Hw].
   - constructor; [apply leaf_delim; exact W | constructor].
   - constructor; [apply delim_punct; punct|]. apply Forall_app. split; [|constructor; [apply delim_punct; punct | constructor]].
     apply tkj_delim. rewrite Forall_map. rewrite forallb_forall in W. rewrite Forall_forall in *. intros x Hx. apply IH; [exact Hx | apply W; exact Hx]. Qed.
+Lemma words_delim ws : forallb word_lex ws = true -> Forall delimited (map wk ws).
+Proof. intros W. rewrite Forall_map. rewrite forallb_forall in W. rewrite Forall_forall. intros w Hw. apply word_delim, W, Hw. Qed.
 Lemma xpair_delim p : xpair_lex p = true -> Forall delimited (tkx_pair p).
-Proof. unfold xpair_lex, tkx_pair. intros W. apply andb_true_iff in W as [W1 W2].
-  constructor; [apply delim_str; exact W1|]. constructor; [apply delim_punct; punct|]. constructor; [apply leaf_delim; exact W2 | constructor]. Qed.
+Proof. unfold xpair_lex, tkx_pair. destruct p as [k v]. cbn [fst snd]. intros W. apply andb_true_iff in W as [W1 W2]. apply Forall_app. split.
+  - destruct k as [lx|ws]; cbn [tk_key]; [constructor; [apply delim_str; exact W1 | constructor] | apply words_delim; exact W1].
+  - constructor; [apply delim_punct; punct|]. destruct v as [a|ws]; cbn [tk_pv]; [constructor; [apply leaf_delim; exact W2 | constructor] | apply words_delim; exact W2]. Qed.
 Lemma xarg_delim x : xarg_lex x = true -> Forall delimited (tkx_arg x).
 Proof. unfold xarg_lex, tkx_arg. intros W. apply andb_true_iff in W as [W1 W2]. constructor; [apply delim_ident; exact W1|]. constructor; [apply delim_punct; punct|].
   destruct (snd x) as [v|p ps tr]; [apply xvalue_delim; exact W2|].
@@ -95,7 +147,7 @@ Lemma xprogram_delim p : forallb xcmd_lex p = true -> Forall delimited (tkx_prog
 Proof. induction p as [|c p IH]; intros W; [constructor|]. cbn [forallb] in W. apply andb_true_iff in W as [W1 W2].
   cbn [tkx_program flat_map]. apply Forall_app. split; [apply xcmd_delim; exact W1 | apply IH; exact W2]. Qed.
 
-Theorem xparse_of_lexes fs p s : p <> [] -> forallb xcmd_ok p = true -> lexes s (tkx_program p) ->
+Theorem xparse_of_lexes fs p s : p <> [] -> forallb (xcmd_ok fs) p = true -> lexes s (tkx_program p) ->
   exists pp, parse fs s = POk pp /\ pp_version pp = xversion p /\ Forall2 xcmd_matches p (pp_cmds pp).
 Proof. intros Hp W Hl.
   destruct (lexes_lex _ _ Hl (S (length s)) 1 0%nat (Nat.lt_succ_diag_r _)) as (toks & E & M).
@@ -107,7 +159,7 @@ Qed.
 
 (* THE THEOREM: whatever the gaps, the quoting, the numerals' spelling and the trailing commas, the text parses to the
    denotation of its tokens *)
-Theorem surface_layout fs p gaps final : p <> [] -> forallb xcmd_ok p = true -> forallb xcmd_lex p = true ->
+Theorem surface_layout fs p gaps final : p <> [] -> forallb (xcmd_ok fs) p = true -> forallb xcmd_lex p = true ->
   length gaps = length (tkx_program p) -> Forall isgap gaps -> lexes final [] -> lay_ok (combine gaps (tkx_program p)) final ->
   exists pp, parse fs (lay (combine gaps (tkx_program p)) final) = POk pp /\ pp_version pp = xversion p /\ Forall2 xcmd_matches p (pp_cmds pp).
 Proof. intros Hp W WL Hlen Hg Hf Hok. apply xparse_of_lexes; [exact Hp | exact W|].
@@ -130,8 +182,8 @@ Proof. intros p1 p2 H. unfold xversion. replace (existsb is2 p2) with (existsb i
   revert p2 H. induction p1 as [|c p1 IH]; intros [|c2 p2] H; try discriminate; [reflexivity|]. cbn [map] in H. inversion H as [[H1 H2 H3 H4]].
   cbn [existsb]. rewrite (IH p2 H4). unfold is2. rewrite H1. reflexivity. Qed.
 Corollary same_denotation fs p1 p2 g1 g2 f1 f2 :
-  p1 <> [] -> forallb xcmd_ok p1 = true -> forallb xcmd_lex p1 = true -> length g1 = length (tkx_program p1) -> Forall isgap g1 -> lexes f1 [] -> lay_ok (combine g1 (tkx_program p1)) f1 ->
-  p2 <> [] -> forallb xcmd_ok p2 = true -> forallb xcmd_lex p2 = true -> length g2 = length (tkx_program p2) -> Forall isgap g2 -> lexes f2 [] -> lay_ok (combine g2 (tkx_program p2)) f2 ->
+  p1 <> [] -> forallb (xcmd_ok fs) p1 = true -> forallb xcmd_lex p1 = true -> length g1 = length (tkx_program p1) -> Forall isgap g1 -> lexes f1 [] -> lay_ok (combine g1 (tkx_program p1)) f1 ->
+  p2 <> [] -> forallb (xcmd_ok fs) p2 = true -> forallb xcmd_lex p2 = true -> length g2 = length (tkx_program p2) -> Forall isgap g2 -> lexes f2 [] -> lay_ok (combine g2 (tkx_program p2)) f2 ->
   map xcmd_den p1 = map xcmd_den p2 ->
   exists pp1 pp2, parse fs (lay (combine g1 (tkx_program p1)) f1) = POk pp1 /\ parse fs (lay (combine g2 (tkx_program p2)) f2) = POk pp2 /\
                   map erase_cmd (pp_cmds pp1) = map erase_cmd (pp_cmds pp2) /\ pp_version pp1 = pp_version pp2.
@@ -141,10 +193,10 @@ Proof. intros A1 A2 A3 A4 A5 A6 A7 B1 B2 B3 B4 B5 B6 B7 Hd.
   exists pp1, pp2. repeat split; [exact E1 | exact E2 | | rewrite V1, V2; apply den_version; exact Hd]. rewrite (matches_dens _ _ M1), (matches_dens _ _ M2). exact Hd. Qed.
 
 (* the same with every hypothesis a computable boolean *)
-Definition surface_okb (p : list xcmd) (gaps : list text) (final : text) : bool :=
-  forallb xcmd_ok p && forallb xcmd_lex p && Nat.eqb (length gaps) (length (tkx_program p)) && forallb (gapb false) gaps &&
+Definition surface_okb (fs : text -> option text) (p : list xcmd) (gaps : list text) (final : text) : bool :=
+  forallb (xcmd_ok fs) p && forallb xcmd_lex p && Nat.eqb (length gaps) (length (tkx_program p)) && forallb (gapb false) gaps &&
   finalb false final && lay_okb (combine gaps (tkx_program p)) final.
-Theorem surface_layout_b fs p gaps final : p <> [] -> surface_okb p gaps final = true ->
+Theorem surface_layout_b fs p gaps final : p <> [] -> surface_okb fs p gaps final = true ->
   exists pp, parse fs (lay (combine gaps (tkx_program p)) final) = POk pp /\ pp_version pp = xversion p /\ Forall2 xcmd_matches p (pp_cmds pp).
 Proof. unfold surface_okb. intros Hp H. repeat (apply andb_true_iff in H as [H ?]).
   apply surface_layout; try assumption.
